@@ -19,7 +19,8 @@ for f in glob.glob(V+'/out/C18/*.json'):
     elif rule=='C18-error-edge' and con.startswith('propagates error of '):
         T['error_edges'].setdefault(fn+' ← '+con[len('propagates error of '):],BASE); added+=1
     elif rule=='C18-panic-edge':
-        print('panic edge not auto-added:',fn,con)
+        k=fn+' '+con.replace('explicit panic','panic')
+        T['panic_edges'].setdefault(k,BASE); added+=1
 # drop stale: run again and read C18-table obligations from evidence is not possible (samples); use used-set via second run
 json.dump(T,open(V+'/tables/c18_abort_edges.json','w'),indent=1,ensure_ascii=False)
 r=subprocess.run([V+'/check','C18','quick'],capture_output=True,text=True)
